@@ -25,7 +25,7 @@ RULE = (
     "non-roots; non-trivial = tree with >= 3 nodes; distinct = distinct (tree fingerprint, predicate sets / xpath text)"
 )
 ASSUMPTIONS = ["predicates are pure functions of the offered node"]
-MUST_SEE = ["skip_self_with_prune", "start_pruned", "prune_not_filter_with_desc", "list_fields", "index_ge_10_match", "xpath_nonempty", "malformed_rejected", "calculate_xpath_nodes", "gather_calls", "two_anywhere_left_steps"]
+MUST_SEE = ["skip_self_with_prune", "start_pruned", "prune_not_filter_with_desc", "list_fields", "index_ge_10_match", "xpath_nonempty", "malformed_rejected", "calculate_xpath_nodes", "gather_calls", "two_anywhere_left_steps", "recalculated_after_change"]
 CONFIG = {
     "quick": {"shards": 16, "small_trees": 40, "exh_n": 4, "large_trees": 15, "xpaths": 40, "watchdog_s": 600},
     "thorough": {"shards": 32, "small_trees": 300, "exh_n": 6, "large_trees": 150, "xpaths": 100, "watchdog_s": 3400},
@@ -258,4 +258,36 @@ def run_shard(ctx):
             if obj[id(p)].xpath != spelled(p):
                 bad("legacy-calculate-xpath", "calculated xpath differs from the chain of fields, indices and classes", got=obj[id(p)].xpath, expected=spelled(p))
                 break
+        # structural change below unchanged ancestors, then recalculation: every node's path must be current
+        deep = [o for o in nodes if o.parent is not None and o.parent.parent is not None]
+        if deep:
+            victim = rng.choice(deep)
+            par = victim.parent
+            fdef = next(f for f in U.child_fields(type(par).__name__) if f.name == victim.parent_field.name)
+            try:
+                if fdef.shape in ("tuple", "list") and rng.random() < 0.5:
+                    victim.replace_with(None)
+                    how = "removed a sequence element"
+                else:
+                    props = [f for f in U.prop_fields(type(victim).__name__)]
+                    if props:
+                        victim.replace(**{props[0].name: (12345 if props[0].shape == "int" else "chg")})
+                        how = "replaced a node"
+                    else:
+                        how = None
+            except Exception:  # noqa: BLE001
+                how = None
+            if how:
+                ctx.count("recalculated_after_change")
+                root.calculate_xpath()
+                from vlib.legacy import struct_children
+
+                stack = [(root, f"/@root[0]{type(root).__name__}")]
+                while stack:
+                    x, px = stack.pop()
+                    if x.xpath != px:
+                        bad("legacy-calculate-xpath", f"after a structural change ({how}) and recalculation a node keeps a stale / missing xpath", got=x.xpath, expected=px)
+                        break
+                    for fn, ix, c in struct_children(U, x):
+                        stack.append((c, px + f"/@{fn}[{ix or 0}]{type(c).__name__}"))
         root.detach()
